@@ -25,6 +25,7 @@ type caseSpec struct {
 	Pattern    []int  `json:"rotate_after_records,omitempty"`
 	PayloadLen int    `json:"payload_len,omitempty"`
 	Mode       string `json:"repair_mode,omitempty"` // fresh | in-place | over-existing
+	History    string `json:"history,omitempty"`     // lives: M write msg, E write next EndHeight, R rotate, S stop+restart
 }
 
 // family coarsens a corruption class for signatures: one defect should give a handful of signatures.
@@ -49,6 +50,8 @@ func sig(class, oracle, via string) string {
 	if strings.HasPrefix(oracle, "search-") {
 		if class == "clean" || class == "rotation" {
 			class = "undamaged-log"
+		} else if class == "log-with-restart-on-empty-head" {
+			// kept: an undamaged multi-life log in which a restart found an empty head after a rotation
 		} else {
 			class = "damaged-log"
 		}
